@@ -120,9 +120,13 @@ type world struct {
 	cs      map[int]*capnp.Client
 	ws      map[int]*capnp.WeakClient
 	ps      map[int]*capnp.ClientPromise
+	steps   []int // steps granted per thread
 }
 
 var curWorld *world
+
+// raceKs: for mode "race", the number of steps of thread 1 after which each racer runs.
+var raceKs []int
 
 func goid() int64 {
 	var buf [64]byte
@@ -379,6 +383,7 @@ func runHistory(t *testing.T, progs [][]op, sched []int, mode string, r *Rand, h
 		for i, p := range progs {
 			th := &thr{id: i, prog: p, grant: make(chan bool)}
 			w.threads = append(w.threads, th)
+			w.steps = append(w.steps, 0)
 			go w.threadMain(th)
 			synctest.Wait()
 		}
@@ -421,6 +426,7 @@ func runHistory(t *testing.T, progs [][]op, sched []int, mode string, r *Rand, h
 			}
 			used = append(used, pick)
 			last = pick
+			w.steps[pick]++
 			w.threads[pick].grant <- true
 			synctest.Wait()
 		}
@@ -471,6 +477,21 @@ func choose(w *world, m int, mode string, last int, r *Rand) int {
 		}
 	}
 	lastEn := m&(1<<last) != 0
+	if mode == "race" {
+		// thread 1 is the main operation; racer j (thread j+2) starts once thread 1 has taken
+		// raceKs[j] steps (or cannot go on) and then runs to completion
+		mainOn := m&2 != 0
+		for j, k := range raceKs {
+			tid := j + 2
+			if tid < len(w.threads) && m&(1<<tid) != 0 && (w.steps[1] >= k || !mainOn) {
+				return tid
+			}
+		}
+		if mainOn {
+			return 1
+		}
+		return en[0]
+	}
 	if mode == "seq" {
 		// keep running the same thread until its op completes, it blocks, or it is in a call-out
 		st := w.threads[last].status
@@ -798,6 +819,66 @@ func genDirectedWeak(r *Rand) [][]op {
 	return progs
 }
 
+// genChain: chains of promises fulfilled with clients of other promises.  Slot 0 is a client of a
+// plain capability T, slot i (1..L) the client of promise i-1.  The set-up thread fulfils the
+// lower promises (leaving the handles of the upper levels stale: their c.h still points at a
+// resolved promise hook) and releases handles so that T's count is low; thread 1 fulfils the top
+// promise with the (stale) client below it; the racers operate on clients of the top promise.
+// The caller enumerates every point of thread 1 at which the racers run.
+func genChain(r *Rand) (progs [][]op, nracers int) {
+	L := 2 + r.Intn(2)
+	setup := []op{{'n', 0, 0}}
+	for i := 0; i < L; i++ {
+		setup = append(setup, op{'p', i + 1, i})
+	}
+	nc := L + 1
+	top := L // slot of the top promise's client
+	topClients := []int{top}
+	if r.Intn(3) == 0 {
+		setup = append(setup, op{'a', top, nc})
+		topClients = append(topClients, nc)
+		nc++
+	}
+	// fulfil promises 0..L-2 bottom-up in the set-up (sometimes leave the last of them to a racer)
+	for i := 0; i < L-1; i++ {
+		setup = append(setup, op{'f', i, i}) // promise i <- client in slot i
+	}
+	// touch some intermediate handles (un-stales them) or not
+	for i := 1; i < L; i++ {
+		if r.Intn(4) == 0 {
+			setup = append(setup, op{'v', i, 0})
+		}
+	}
+	// drop references so that T is held by few handles
+	for i := 0; i < L-1; i++ {
+		if r.Intn(4) != 0 {
+			setup = append(setup, op{'r', i, 0})
+		}
+	}
+	progs = [][]op{setup, {{'f', L - 1, L - 1}}}
+	if r.Intn(4) == 0 {
+		progs[1] = append(progs[1], op{'r', L - 1, 0})
+	}
+	nracers = 1 + r.Intn(2)
+	for j := 0; j < nracers; j++ {
+		c := topClients[r.Intn(len(topClients))]
+		var p []op
+		switch r.Pick(6, 2, 2, 1) {
+		case 0:
+			p = []op{{'r', c, 0}}
+		case 1:
+			p = []op{{'a', c, nc}, {'r', c, 0}}
+			nc++
+		case 2:
+			p = []op{{'c', c, r.Intn(2)}, {'r', c, 0}}
+		default:
+			p = []op{{'t', c, 0}, {'r', c, 0}}
+		}
+		progs = append(progs, p)
+	}
+	return progs, nracers
+}
+
 // ---------------------------------------------------------------- main
 
 func main() { Main(run) }
@@ -810,6 +891,7 @@ func run(out *Out, r *Rand, tier string, replay []string) {
 	tests := []testing.InternalTest{{Name: "C10", F: func(t *testing.T) {
 		capnp.VerifYieldHook = yieldHook
 		opKinds := map[string]int{}
+		var seen map[string]bool
 		opName := map[byte]string{'n': "NewClient", 'p': "NewPromisedClient", 'a': "AddRef", 'r': "Release", 'w': "WeakRef",
 			'u': "WeakClient.AddRef", 'c': "SendCall/RecvCall", 'f': "Fulfill", 'v': "IsValid", 's': "IsSame", 't': "State"}
 		runOne := func(kind, mode string, progs [][]op, sched []int) {
@@ -853,6 +935,12 @@ func run(out *Out, r *Rand, tier string, replay []string) {
 				}
 			}
 			line := fmt.Sprintf("%s %s %s %s", kind, fixed, progsString(progs), ss)
+			if seen != nil {
+				if seen[line] {
+					return // the same schedule as an earlier racing point
+				}
+				seen[line] = true
+			}
 			nontriv := strings.Contains(res.obs, "X") || strings.Contains(res.obs, "S") || strings.Contains(res.obs, "V")
 			out.Case(kind, line, res.obs, Cls(res.obs), nontriv)
 		}
@@ -886,6 +974,27 @@ func run(out *Out, r *Rand, tier string, replay []string) {
 				}
 				if i%8 == 3 {
 					runOne(mode, mode, genDirectedWeak(r), nil)
+					continue
+				}
+				if i%20 == 7 {
+					// exhaustive over the racing points of a short chain history
+					progs, nr := genChain(r)
+					seen = map[string]bool{}
+					const K = 11
+					if nr == 1 {
+						for k := 0; k <= K; k++ {
+							raceKs = []int{k}
+							runOne("race", "race", progs, nil)
+						}
+					} else {
+						for k := 0; k <= K; k++ {
+							for k2 := 0; k2 <= K; k2++ {
+								raceKs = []int{k, k2}
+								runOne("race", "race", progs, nil)
+							}
+						}
+					}
+					seen = nil
 					continue
 				}
 				progs, mis := genHistory(r, mode)
